@@ -189,6 +189,15 @@ func (d *DBFT[H]) sendRecoveryRequest() {
 	// transactions or both, so re-request missing transactions here too.
 	if d.RequestSentOrReceived() && !d.hasAllTransactions() {
 		d.processMissingTx()
+		if d.hasAllTransactions() {
+			// The pool has got all of them meanwhile, the proposal must be
+			// checked and answered as if the last transaction has just arrived.
+			d.onAllTransactions()
+			if d.BlockSent() {
+				// Nothing to recover anymore.
+				return
+			}
+		}
 	}
 	req := d.NewRecoveryRequest(uint64(d.Timer.Now().UnixNano()))
 	d.broadcast(d.NewConsensusPayload(&d.Context, RecoveryRequestType, req))
